@@ -667,3 +667,21 @@ package providers
 //@ ensures[failed-lookup-assigns-nothing] called(UnmarshalSimpleJSON) && ret1(UnmarshalSimpleJSON) != nil ==> result != nil
 //@     && !stored("SessionState.User") && !stored("SessionState.Email") && !stored("SessionState.Groups")
 //@ ensures[an-address-or-an-error] result == nil ==> stored("SessionState.Email")
+
+// the Directory lookup behind Google group restrictions: every failure (API error of any status, transport or decode failure)
+// means "not a member", never a crash
+//@ func userInGroup
+//@ safety
+//@ prop C14 C19 C08
+//@ requires[config:admin-service-built-by-the-library-constructor] service != nil && service.Members != nil
+//@ ensures[member-only-on-an-answer-that-says-so] result ==> (called(Do#0) && ret1(Do#0) == nil) || (called(Do#1) && ret1(Do#1) == nil)
+
+// ------------------------------------------------------------------ C05: the default login URL carries the parameters the caller computed for this login
+// (the PKCE challenge and its method travel in extraParams): the very same map reaches the URL builder, with at most a response mode added
+//@ func (*ProviderData).GetLoginURL
+//@ safety
+//@ prop C05 C03
+//@ at call makeLoginURL assert[the-callers-parameters-reach-the-url] arg(makeLoginURL, 3) == extraParams && arg(makeLoginURL, 1) == redirectURI
+//@     && arg(makeLoginURL, 2) == state && arg(makeLoginURL, 0) == p
+//@ at call Add assert[only-a-response-mode-is-added] arg(Add, 1) == "response_mode" && arg(Add, 2) == p.AuthRequestResponseMode
+//@ ensures[the-built-url-is-returned] called(makeLoginURL) && result == ret(String)
